@@ -438,6 +438,9 @@ class digest(FieldType):
             self.md5 = value.get("md5", self.md5)
             self.sha1 = value.get("sha1", self.sha1)
             self.sha256 = value.get("sha256", self.sha256)
+        elif value is not None:
+            # (anything else, like a single hash as text, used to be dropped without a word, leaving an empty digest)
+            raise TypeError("Invalid digest value, expected (md5, sha1, sha256) or a dict: {!r}".format(value))
 
     @classmethod
     def default(cls):
